@@ -124,7 +124,8 @@ def build_contracts(mod, prop, tier, seed):
             fn(c)
             # the step semantics is "one active edge of the unit's clock domain(s), all together": a unit whose flip-flops
             # have moved into a clock domain it did not have on the reference tree is outside what was proved
-            ref_clk = baseline.get(c.name, {}).get("__clocks__")
+            ref_clk = None if (os.environ.get("HWV_RECORD_PROBES") and not os.environ.get("HWV_REPO")) \
+                else baseline.get(c.name, {}).get("__clocks__")
             now_clk = {u.prefix: sorted(u.clock_inputs) for u in c.units}
             c.lemma("clock_domains_of_the_units_are_those_of_the_reference_tree",
                     z3.BoolVal(ref_clk is None or ref_clk == now_clk),
